@@ -61,7 +61,16 @@ def write_tree(root: Path, files: FileMap) -> None:
     for rel, content in files.items():
         p = root / rel
         p.parent.mkdir(parents=True, exist_ok=True)
-        if isinstance(content, bytes):
+        if isinstance(content, tuple):
+            # ('symlink', target) | ('dir',) | ('mode', octal mode, bytes)
+            if content[0] == 'symlink':
+                os.symlink(content[1], p)
+            elif content[0] == 'dir':
+                p.mkdir(parents=True, exist_ok=True)
+            elif content[0] == 'mode':
+                p.write_bytes(content[2])
+                os.chmod(p, content[1])
+        elif isinstance(content, bytes):
             p.write_bytes(content)
         else:
             p.write_bytes(content.encode('utf-8', 'surrogatepass'))
